@@ -7,6 +7,7 @@ import (
 	"net"
 	"strings"
 	"testing"
+	"unicode"
 
 	"pgregory.net/rapid"
 
@@ -88,8 +89,8 @@ func TestIPv4Text(t *testing.T) {
 type subnetCase struct {
 	IP     uint32 `json:"ip"`
 	IPBits uint8  `json:"ip_prefix"`
-	Net uint32 `json:"net"`
-	Len uint8  `json:"prefix"`
+	Net    uint32 `json:"net"`
+	Len    uint8  `json:"prefix"`
 }
 
 func checkSubnet(c subnetCase) []vf.Finding {
@@ -166,13 +167,16 @@ func TestSubnetRandom(t *testing.T) {
 
 // ---- ranges -----------------------------------------------------------------------
 
+// The three operands carry prefix lengths of their own (whatever their interfaces have): a range test
+// compares addresses, the prefix lengths have no part in it.
 type rangeCase struct {
-	IP, Start, End uint32
+	IP, Start, End             uint32
+	IPBits, StartBits, EndBits uint8
 }
 
 func checkRange4(c rangeCase) []vf.Finding {
 	want := c.IP >= c.Start && c.IP <= c.End
-	x, a, b := v4{c.IP, 32}.lib(), v4{c.Start, 32}.lib(), v4{c.End, 32}.lib()
+	x, a, b := v4{c.IP, c.IPBits}.lib(), v4{c.Start, c.StartBits}.lib(), v4{c.End, c.EndBits}.lib()
 	var fs []vf.Finding
 	if got := x.IsInRange(a, b); got != want {
 		fs = append(fs, vf.F("IPv4.IsInRange", "differs-from-unsigned-comparison", "%s in [%s,%s]: got %v", x, a, b, got))
@@ -202,8 +206,17 @@ func TestIPv4Range(t *testing.T) {
 		default:
 			x = a/2 + b/2
 		}
-		return rangeCase{x, a, b}
-	}, checkRange4, func(c rangeCase) bool { return c.Start < c.End })
+		bits := func(label string) uint8 {
+			if rapid.IntRange(0, 3).Draw(t, label+"Host") == 0 {
+				return 32
+			}
+			return uint8(rapid.IntRange(0, 32).Draw(t, label))
+		}
+		return rangeCase{x, a, b, bits("ipBits"), bits("startBits"), bits("endBits")}
+	}, checkRange4, func(c rangeCase) bool {
+		// a proper range, and an address whose own prefix does not cover all of it (host bits set)
+		return c.Start < c.End && c.IP&^mask(c.IPBits) != 0
+	})
 }
 
 type v6 struct {
@@ -426,13 +439,44 @@ func genHex32(t *rapid.T, label string) string {
 	return fmt.Sprintf("%x", b)
 }
 
+// every white-space character (unicode.IsSpace): the ASCII ones, NEL, NBSP and the Unicode space separators
+var spaces = func() []string {
+	var out []string
+	for r := rune(0); r <= unicode.MaxRune; r++ {
+		if unicode.IsSpace(r) {
+			out = append(out, string(r))
+		}
+	}
+	return out
+}()
+
+var asciiSpaces = []string{" ", "\t", "\n", "\r"}
+
 func genPad(t *rapid.T, label string) string {
 	n := rapid.IntRange(0, 3).Draw(t, label+"n")
 	var sb strings.Builder
 	for i := 0; i < n; i++ {
-		sb.WriteString(rapid.SampledFrom([]string{" ", "\t", "\n", "\r"}).Draw(t, label))
+		if rapid.Bool().Draw(t, label+"ascii") {
+			sb.WriteString(rapid.SampledFrom(asciiSpaces).Draw(t, label))
+		} else {
+			sb.WriteString(rapid.SampledFrom(spaces).Draw(t, label))
+		}
 	}
 	return sb.String()
+}
+
+// hash values with a meaning of their own, which a parser may be tempted to treat as "no hash": the LM and NT
+// hashes of the empty password, all zeros, all ones
+var knownHashes = []string{
+	"aad3b435b51404eeaad3b435b51404ee", "31d6cfe0d16ae931b73c59d7e0c089c0",
+	"00000000000000000000000000000000", "ffffffffffffffffffffffffffffffff",
+}
+
+func genHash(t *rapid.T, label string) string {
+	if rapid.IntRange(0, 2).Draw(t, label+"Known") == 0 {
+		return rapid.SampledFrom(knownHashes).Draw(t, label+"K")
+	}
+	return genHex32(t, label)
 }
 
 func TestLMNTHashes(t *testing.T) {
@@ -443,11 +487,11 @@ func TestLMNTHashes(t *testing.T) {
 		// convention; an LM hash alone is not expressible)
 		switch rapid.IntRange(0, 2).Draw(t, "shape") {
 		case 0:
-			c.LM, c.NT = genHex32(t, "lm"), genHex32(t, "nt")
+			c.LM, c.NT = genHash(t, "lm"), genHash(t, "nt")
 		case 1:
-			c.NT = genHex32(t, "nt")
+			c.NT = genHash(t, "nt")
 		default:
-			c.LM, c.NT = "aad3b435b51404eeaad3b435b51404ee", genHex32(t, "nt")
+			c.LM, c.NT = "aad3b435b51404eeaad3b435b51404ee", genHash(t, "nt")
 		}
 		return c
 	}, checkHashes, func(c hashCase) bool { return c.Left != "" && c.Right != "" })
